@@ -7,6 +7,7 @@ import (
 	"encoding/json"
 	"errors"
 	"fmt"
+	"io"
 	"strings"
 	"time"
 
@@ -255,6 +256,7 @@ func c15Run(c *core.Ctx) {
 	c15Children(c)
 	c15Never(c)
 	c15NeverChildren(c)
+	c15Records(c)
 }
 
 // ---- waiting for child processes: cancellation at every scheduling point ----
@@ -396,6 +398,93 @@ func c15Never(c *core.Ctx) {
 	}
 }
 
+// ---- record-driven programs: work measured in records consumed ----
+//
+// Evaluating a rule's pattern for a record is an interpreter step whatever
+// machinery does it. The input (6000 records) is delivered one record per
+// Read, so the number of Reads after the cancellation is the number of
+// records still processed: it must stay within the same allowance, and the
+// call must return the context's error (the input is far from exhausted).
+
+var c15RecordProgs = []c15Prog{
+	{"regex-pattern-only", `/f3/`, ""},
+	{"regex-rules-not-matching", `/zzz/ { n++ } /yyy/ { m++ } END { print NR }`, ""},
+	{"regex-bare-matching", `/x/`, ""},
+	{"negated-regex", `!/f3/ { n++ } END { print n }`, ""},
+	{"expr-pattern", `$1 % 2`, ""},
+	{"range-pattern", `/f1/, /f5/ { n++ } END { print n }`, ""},
+	{"two-rules", `/f1/ { a++ } $1 > 5 { b++ } END { print a, b }`, ""},
+	{"action-only", `{ s += $1 } END { print s }`, ""},
+}
+
+type c15LineReader struct {
+	lines  [][]byte
+	i      int
+	onRead func(i int)
+}
+
+func (r *c15LineReader) Read(p []byte) (int, error) {
+	if r.i >= len(r.lines) {
+		return 0, io.EOF
+	}
+	if r.onRead != nil {
+		r.onRead(r.i)
+	}
+	n := copy(p, r.lines[r.i])
+	r.i++
+	return n, nil
+}
+
+func c15Records(c *core.Ctx) {
+	const total = 6000
+	var lines [][]byte
+	for i := 1; i <= total; i++ {
+		lines = append(lines, []byte(fmt.Sprintf("%d f%d x\n", i, i%7)))
+	}
+	for _, p := range c15RecordProgs {
+		if !c.Mine() {
+			continue
+		}
+		prog := awk.MustParse(p.Src, nil)
+		c.Add("states", 1)
+		for _, cancelAt := range []int{-1, 0, 1, 10, 2000} { // -1: context cancelled before the call
+			c15RecordRun(c, p, prog, lines, cancelAt)
+		}
+	}
+}
+
+func c15RecordRun(c *core.Ctx, p c15Prog, prog *parser.Program, lines [][]byte, cancelAt int) {
+	ctx, cancel := context.WithCancel(context.Background())
+	defer cancel()
+	cancelledAt := -1
+	if cancelAt < 0 {
+		cancel()
+		cancelledAt = 0
+	}
+	rd := &c15LineReader{lines: lines}
+	rd.onRead = func(i int) {
+		if i == cancelAt && cancelledAt < 0 {
+			cancelledAt = i
+			cancel()
+		}
+	}
+	it, _ := interp.New(prog)
+	var out bytes.Buffer
+	_, err := it.ExecuteContext(ctx, &interp.Config{Stdin: rd, Output: &out, Error: &bytes.Buffer{}, Environ: []string{}})
+	c.Eval(1)
+	c.Add("transitions", 1)
+	after := rd.i - cancelledAt
+	c.NoteMax("max_records_after_cancel", int64(after))
+	c.Outcome(fmt.Sprintf("records %s after=%d err=%v", p.Name, after/100, err))
+	cs := c15Case{Prog: p.Name, CancelAt: cancelAt, Kind: "records"}
+	switch {
+	case after > c15AlarmSteps:
+		c.Fail("late-stop:records:prog="+p.Name, cs, fmt.Sprintf("%d records were still read and matched against the patterns after the cancellation (limit %d); err=%v", after, c15AlarmSteps, err))
+	case !errors.Is(err, context.Canceled):
+		c.Fail("wrong-result:records:prog="+p.Name, cs, fmt.Sprintf("err=%v after %d of %d records", err, rd.i, len(lines)))
+	}
+}
+
 // ---- never cancelled, with child processes (virtual world, default schedule) ----
 
 var c15NeverChildProgs = []c15Prog{
@@ -497,6 +586,16 @@ func c15Replay(c *core.Ctx, raw json.RawMessage) {
 		panic(err)
 	}
 	switch cs.Kind {
+	case "records":
+		var lines [][]byte
+		for i := 1; i <= 6000; i++ {
+			lines = append(lines, []byte(fmt.Sprintf("%d f%d x\n", i, i%7)))
+		}
+		for _, p := range c15RecordProgs {
+			if p.Name == cs.Prog {
+				c15RecordRun(c, p, awk.MustParse(p.Src, nil), lines, cs.CancelAt)
+			}
+		}
 	case "never-child":
 		for _, p := range c15NeverChildProgs {
 			if p.Name == cs.Prog {
@@ -546,11 +645,12 @@ func init() {
 		ID:    "C15",
 		Level: "model_checking",
 		Rule: "deviation-bounded environment exploration: for 19 programs (tight loop, nested calls, recursion, for-in, main-loop rules, END loop, pending printf output, getline loop, exit after loops, runtime error in BEGIN / function / rule / END / for-in body) the context is cancelled before VM step k for every k<=300 + every 7th k<=3000 + every 61st up to the end (thorough: every k<=3000 + every 7th), with unbuffered and bufio-wrapped output, plus pre-cancelled and expired contexts; " +
-			"for 8 programs waiting on child processes (system, cmd|getline, print|cmd+close, inside a function/loop, in END, a killed shell whose descendant keeps the output pipe open) every placement of the cancel among the scheduling points of the virtual process world up to 2 (thorough 3) deviations; never-cancelled ExecuteContext vs Execute on the C01 misc/builtins/calls/control program space and on 9 programs with child processes in the virtual world; " +
+			"for 8 programs waiting on child processes (system, cmd|getline, print|cmd+close, inside a function/loop, in END, a killed shell whose descendant keeps the output pipe open) every placement of the cancel among the scheduling points of the virtual process world up to 2 (thorough 3) deviations; 8 record-driven programs (bare regex patterns matching / not matching, negated, expression, range, several rules) on 6000 records delivered one per Read, cancelled before the call or at record 0/1/10/2000: records consumed after the cancellation <= the same allowance; never-cancelled ExecuteContext vs Execute on the C01 misc/builtins/calls/control program space and on 9 programs with child processes in the virtual world; " +
 			"state = one program, transition = one execution; distinct = distinct (program, steps-after-cancel bucket, result)",
 		Assumptions: []string{
 			"alarm threshold for 'a fixed small number (about a thousand)' of further steps is 1500 (the code polls every 1000 instructions); the measured maximum is reported as note_max_steps_after_cancel",
 			"a run that ends with a non-context error after the cancellation is a violation (the context's error is preferred over secondary errors); only an error-free normal end within the step allowance is accepted in place of the context's error",
+			"for record-driven programs the evaluation of a rule's pattern (or the execution of a pattern-less action) for one record counts as at least one interpreter step however it is implemented; a program with END only is not in that set (reading records without evaluating anything is not an interpreter step)",
 			"a VM step = one iteration of the dispatch loop (hook spliced in by the overlay)",
 			"child processes are the vexec model; CommandContext kills the child when the context is done; WaitDelay is modelled without a clock: it expires exactly when the process has exited and a descendant still holds its output pipe (scripts orphan / sleep-orphan), without it Wait blocks as long as the pipe is held",
 		},
